@@ -20,7 +20,7 @@ EXPLANATION = (
     "sorting and restores them before the results are re-attached (index-clean typestate of C18 on the whole "
     "step). S4 every produced term receives the window (SQL `+ window_term` for each computed term, Polars "
     ".over(...) unless literal/column/series, Pandas every store comes from the grouped frame). S5 the null "
-    "partition is kept (groupby dropna=False). Not decided: the per-row values of each function."
+    "partition is kept (groupby dropna=False). Not decided: the per-row values of each function. S6 fusion: the builder fuses two consecutive windowed extends into one node only when partition, the order *sequence*, reverse and the windowing mode are identical (the C06 merge precondition), so each term keeps the window it was declared with."
 )
 
 
@@ -34,6 +34,11 @@ def run(program, res, tier):
     res.rule("C27-S3", "sort before compute; positions captured from a clean frame and restored before re-attachment")
     res.rule("C27-S4", "every produced term is computed inside the window")
     res.rule("C27-S5", "null partition kept")
+    res.rule("C27-S6", "two windowed extends are fused only when partition, order sequence, reverse and windowing are identical")
+    from ..nodes import NodeModel
+    from ..report import Relabel
+    from . import c06
+    c06._s2(program, NodeModel(program), Relabel(res, {"*": "C27-S6"}))
     # ------------------------------------------------------------------ Pandas
     pe = program.method("pandas_base", "PandasModelBase", "_extend_step", inherited=False)
     res.analysed(pe)
